@@ -32,6 +32,9 @@ func mkC18Message(name string) c18Shared {
 	kind := vChoose(name+".kind", 4)
 	decoded := vChoose(name+".decoded", 2) == 1
 	feature := []int{0, 2, 4, 8}[vChoose(name+".feature", 4)]
+	if vTier() == 1 {
+		feature = vChoose(name+".tfeature", nLayerFeatures)
+	}
 	if decoded {
 		fp := mkFaultPlan(0)
 		switch kind {
